@@ -905,7 +905,8 @@ class FuncGraph:
                 env.update(env_out)
             return None if ret_out is FALL else ('seq', env, ret_out)
         simple = not s.orelse and not any(isinstance(n, (ast.Break, ast.Continue, ast.Yield, ast.YieldFrom)) for b in s.body for n in ast.walk(b))
-        if simple and it.op in ('tuple', 'list') and 1 <= len(it.args[0]) <= 6 and not any(x.op == 'star' for x in it.args[0]) and not self._loops:
+        no_return = not any(isinstance(n, ast.Return) for b in s.body for n in ast.walk(b))
+        if simple and it.op in ('tuple', 'list') and 1 <= len(it.args[0]) <= 6 and not any(x.op == 'star' for x in it.args[0]) and (not self._loops or no_return):
             # (a body that returns on some paths is fine: the remaining elements are what follows on the other paths)
             steps = [_UnrolledStep(s.target, item, s.body, s) for item in it.args[0]]
             env_b, ret_b = self.block(steps, env)
@@ -1974,6 +1975,9 @@ class FuncGraph:
         line = getattr(e, 'lineno', 0)
         is_lib = f.op == 'ref' and (isinstance(f.args[0], Lib) or (isinstance(f.args[0], tuple) and f.args[0] and f.args[0][0] == 'builtin'))
         is_lib = is_lib or (f.op == 'attr' and f.args[0].op == 'ref' and isinstance(f.args[0].args[0], (Lib, Mod)))
+        # x.reshape(n, *x.shape[2:]) / x.transpose(*axes): methods of arrays, no repository code behind them
+        is_lib = is_lib or (f.op == 'attr' and f.args[1] in ('reshape', 'transpose', 'view', 'astype', 'swapaxes', 'sum', 'mean', 'max', 'min', 'squeeze', 'repeat', 'take', 'flatten', 'ravel')
+                            and not (f.args[0].op == 'param' and f.args[0].args[0] in ('self', 'cls')))
         if f.op in ('sub', 'call', 'gamma', 'partial') or (f.op == 'refine' and isinstance(f.args[0], T) and f.args[0].op in ('gamma', 'sub', 'call')):
             nf.append(('callee selected at run time', line))
         if not is_lib:
